@@ -764,6 +764,32 @@ if chain_cases:
 # ---------------------------------------------------------------------------
 misc_cases = []
 N_MISC = 400 if Q else 5000
+# frames that DECLARE their capture method in the metadata (as acquisition files do): frames derived from them must be
+# recognised for what they hold, not for what their parent declared
+for n in (2, 3, 4):
+    labels = list(range(1, n + 1))
+    pr = make_probe(labels, 0)
+    for declared, (ptx, prx) in (("hmc", ut.hmc(n)), ("fmc", ut.fmc(n))):
+        ptx, prx = np.asarray(ptx), np.asarray(prx)
+        tt = np.arange(len(ptx) * 3, dtype=float).reshape(len(ptx), 3)
+        for meta_val in (declared, core.CaptureMethod[declared]):
+            fr0 = core.Frame(tt, TIME, ptx, prx, pr, None, metadata={"capture_method": meta_val})
+            derived = [("expand_frame_assuming_reciprocity", fr0.expand_frame_assuming_reciprocity()),
+                       ("subframe(tx <= rx)", fr0.subframe(np.nonzero(ptx <= prx)[0])),
+                       ("subframe(all but the first)", fr0.subframe(np.arange(1, len(ptx)))),
+                       ("subframe_from_probe_elements(all but the last)", fr0.subframe_from_probe_elements(np.arange(n - 1), make_subprobe=False))]
+            for opn, d_ in derived:
+                if len(d_.tx) == 0:
+                    continue
+                want_ = ut.infer_capture_method(np.asarray(d_.tx), np.asarray(d_.rx))
+                got_ = d_.capture_method.name if hasattr(d_.capture_method, "name") else str(d_.capture_method)
+                evaluations += 1
+                chk.count(declared_capture_method=declared)
+                if got_ != want_:
+                    chk.violation("capture_method:derived", f"a frame declared '{declared}' in its metadata, after {opn}, reports capture method "
+                                  f"{got_!r} although it holds a {want_!r} set of pairs",
+                                  {"n": n, "declared": declared, "operation": opn, "tx": np.asarray(d_.tx), "rx": np.asarray(d_.rx),
+                                   "reported": got_, "actual": want_}, True)
 for _ in range(N_MISC):
     n = ri(1, 7)
     labels = list(range(1, n + 1))
